@@ -239,7 +239,7 @@ def register(reg):
         node = lst.fields['nodelist'].items[0]
         n = V.slen(node.fields['chars'])
         a, b = ctx.fresh_int('match.start'), ctx.fresh_int('match.end')
-        kind = ctx.choose(5, 'what the separator callable returns')
+        kind = ctx.choose(8, 'what the separator callable returns')
         ctx.assume(z3.And(0 <= a, a < b, b <= zint(n)))
 
         class M(object):
@@ -255,7 +255,7 @@ def register(reg):
             calls.append(list(aa))
             if len(calls) > 1:
                 return None
-            return [None, M(), (a, b), PyList([]), (-1, 0)][kind]
+            return [None, M(), (a, b), PyList([]), (-1, 0), (-1, None), (None, None), (-2, 0)][kind]
         f = resolve_function(it, NL + '.split_at_chars')
         it.unit_inline = set(INL) | {NL + '.split_at_chars'}
         class Sep(object):
@@ -269,7 +269,7 @@ def register(reg):
         found = kind in (1, 2)
         ok = len(res.items) == (2 if found else 1)
         ctx.prove('split_at_chars: a callable separator splits exactly where it reports a match (match object or (start, end) pair) '
-                  'and nowhere for None / an empty result / a negative start', ok, 'post')
+                  'and nowhere for None / an empty result / a None or negative start', ok, 'post')
         if found and ok:
             p0, p1 = res.items
             t0 = concat([text_of_node(it, x) for x in part_items(p0)])
@@ -619,7 +619,7 @@ def search():
             return "split_at_chars of %r: string separator %r, regular expression %r, callable %r" % (d, a, b, c)
         # split_at_node
         for keep in (False, True):
-            for ms in (None, 1, 2):
+            for ms in (None, 0, 1, 2):
                 parts = lst.split_at_node(lambda n: n.isNodeType(N.LatexGroupNode), keep_separators=keep, max_split=ms)
                 flat = [n for p in parts for n in p]
                 want = [n for n in lst if n is not None and (keep or not n.isNodeType(N.LatexGroupNode))]
@@ -628,7 +628,7 @@ def search():
                 if ms is not None and len(parts) > ms + 1:
                     return "split_at_node(max_split=%r) of %r made %d splits" % (ms, d, len(parts) - 1)
     # key-value parsing agrees with the two splits; repeated-key policies
-    for d in ("a=1,b=2", "a=1,a=2,a=3", "x={p,q},y", "=v", "k=", "a==b", "a = 1 , b"):
+    for d in ("a=1,b=2", "a=1,a=2,a=3", "x={p,q},y", "=v", "k=", "a==b", "a = 1 , b", "a={1}2,b=3", "k={1}x,k={2}"):
         for pol in ("first", "last", "concatenate", "error"):
             lst = nl(d)
             pairs = []
